@@ -398,6 +398,12 @@ def scenarios(tier, seed):
             for bind in (["tcp", "unix"] if tier == "thorough" or True else ["tcp"]):
                 out.append({"history": h, "bind": bind, "class": rng.choice(["sync", "sync", "gthread", "gevent"]),
                             "delay0": rng.choice([0.3, 0.6]), "delay1": rng.choice([0.3, 0.8])})
+    from vlib import e4_live
+    if e4_live.have_ipv6():
+        # the hand-over of an IPv6 listener (a different socket class on gunicorn's side)
+        for h in (["H6", "H3"] if tier == "quick" else ["H1", "H2", "H3", "H4", "H6", "H8"]):
+            out.append({"history": h, "bind": "tcp6", "class": rng.choice(["sync", "gthread", "gevent"]),
+                        "delay0": rng.choice([0.3, 0.6]), "delay1": rng.choice([0.3, 0.8])})
     for i, sc in enumerate(out):
         sc["seed"] = seed
         sc["idx"] = i
